@@ -737,6 +737,8 @@ def frame_order(ctx):
                 its.append(lp.iter)
             if isinstance(lp, (ast.ListComp, ast.GeneratorExp, ast.SetComp)):
                 its += [g.iter for g in lp.generators]
+            if isinstance(lp, ast.Call) and norm(lp.func) == "map" and len(lp.args) >= 2:      # map(int, h5file["data"]) iterates too
+                its += list(lp.args[1:])
             for it in its:
                 from ..dataflow import expand
                 e = expand(f.node, it)
